@@ -34,6 +34,7 @@
 (*   "early_skips_resp" an early response does not pass the response side       (refuted)     *)
 (*   "diag_on_request" the diagnosis task is handed over at request time        (refuted)     *)
 (*   "last_early_wins" the fold keeps the last early response                   (refuted)     *)
+(*   "diag_current"    the diagnosis worker reads the current version           (refuted)     *)
 (*   "short_circuit"   remedies after the answering one are not applied         (accepted)    *)
 (*   "acct_per_remedy" one rotation counter per account_orchestration remedy    (accepted)    *)
 (*   "auth_no_memo"    authentication reads the account of the pinned version   (accepted)    *)
@@ -174,7 +175,7 @@ ActiveOf(chain, seq) ==
 
 \* the diagnosis worker's task for transaction id: policies pinned for the id, getDiagnoses, one export each
 Exports(x, id, m, u) ==
-    LET v  == x.vers[x.pins[id]]
+    LET v  == IF Bug = "diag_current" THEN x.vers[Len(x.vers)] ELSE x.vers[x.pins[id]]
         ds == GetPlugins(v, m, u, "diags", "gdiags")
     IN [i \in 1..Len(ds) |-> [exp |-> ds[i].r.exp, k |-> ds[i].r.k, mine |-> ds[i].r.k = "har"]]
 
